@@ -101,7 +101,7 @@ def err_class(ex: BaseException) -> str:
 
 # ---------------------------------------------------------------------------
 #: operations that cannot change the projected state (the previous projection is reused)
-READ_OPS = {"read_status", "load", "lookup", "read_retries", "get_result", "get_exception", "blocking_scan",
+READ_OPS = {"filter_status", "read_status", "load", "lookup", "read_retries", "get_result", "get_exception", "blocking_scan",
             "scan_pending", "scan_running", "body_enter", "body_exit", "yielded", "poll_start", "poll_end",
             "run_end", "accepted", "recovery_start", "recovery_end", "quiescent", "upsert",
             "settle_start", "stop_start", "stop_end", "crash"}
@@ -287,6 +287,9 @@ class Recorder:
                       "keys": dict(key_serialized_arguments or {}),
                       "statuses": sorted(st(s) for s in (statuses or []))},
                   absret=lambda r: sorted(inv(i) for i in r))
+        self.wrap(o, "filter_by_status", "filter_status",
+                  lambda ids, status_filter=None: {"invs": [inv(i) for i in ids]},
+                  absret=lambda r: sorted(inv(i) for i in r))
         self.wrap(o, "index_arguments_for_concurrency_control", "index", lambda i: {"inv": inv(i)})
         self.wrap(o, "increment_invocation_retries", "inc_retries", lambda i: {"inv": inv(i)})
         self.wrap(o, "get_invocation_retries", "read_retries", lambda i: {"inv": inv(i)},
@@ -354,6 +357,9 @@ def _sql_kind(sql: str) -> str:
     return head
 
 
+_wal_done: set[str] = set()
+
+
 class _ConnProxy:
     def __init__(self, real: Any, path: str) -> None:
         object.__setattr__(self, "_real", real)
@@ -375,9 +381,15 @@ class _ConnProxy:
 
     def execute(self, sql: str, parameters: Any = (), /) -> Any:
         up = sql.lstrip().upper()
-        if up.startswith("PRAGMA BUSY_TIMEOUT") and current_scheduler() is not None:
-            return self._real.execute("PRAGMA busy_timeout=0")
-        if up.startswith("PRAGMA") or up.startswith("CREATE"):
+        if up.startswith("PRAGMA"):
+            # harness-only economy: tuning pragmas are skipped (no semantic effect), WAL is set once per file
+            if up.startswith("PRAGMA JOURNAL_MODE"):
+                if self._path in _wal_done:
+                    return self._real.cursor()
+                _wal_done.add(self._path)
+                return self._real.execute(sql, parameters)
+            return self._real.cursor()
+        if up.startswith("CREATE"):
             return self._real.execute(sql, parameters)
         return self._do(_sql_kind(sql), lambda: self._real.execute(sql, parameters))
 
